@@ -1,7 +1,12 @@
 package harness
 
 import (
+	"encoding/json"
 	"fmt"
+	aggregatemodule "github.com/teleport-network/teleport/x/aggregate/module"
+	rvestingmodule "github.com/teleport-network/teleport/x/rvesting/module"
+	xibcmodule "github.com/teleport-network/teleport/x/xibc/module"
+	xibctypes "github.com/teleport-network/teleport/x/xibc/types"
 	"math/big"
 	"strings"
 	"testing"
@@ -506,6 +511,142 @@ func (w *haltWorld) runAgg(cs M) (submit, res, msg, pre, post string) {
 	return
 }
 
+// runGenesis: a genesis state of one module (by classes).  submit = "ok" when the module's own genesis validation accepts
+// it (an error or a panic there means it is refused); res = what InitChain of a fresh application does with it.
+func (w *haltWorld) runGenesis(cs M) (submit, res, msg string) {
+	accts := []Acct{NewAcct("host/user"), NewAcct("relayer"), NewAcct("outsider"), NewAcct("tss")}
+	ref := w.L.C
+	cdc := ref.App.AppCodec()
+	sub := str(cs["sub"])
+	var raw json.RawMessage
+	switch sub {
+	case "aggregate":
+		gs := aggtypes.DefaultGenesisState()
+		a1, a2 := "0x00000000000000000000000000000000000000a1", "0x00000000000000000000000000000000000000a2"
+		pair := func(addr string, denoms ...string) aggtypes.TokenPair {
+			return aggtypes.TokenPair{ERC20Address: addr, Denoms: denoms, Enabled: true, ContractOwner: aggtypes.OWNER_MODULE}
+		}
+		switch str(cs["f"]) {
+		case "one":
+			gs.TokenPairs = []aggtypes.TokenPair{pair(a1, "acoin")}
+		case "two":
+			gs.TokenPairs = []aggtypes.TokenPair{pair(a1, "acoin", "bcoin"), pair(a2, "ccoin")}
+		case "nodenoms":
+			gs.TokenPairs = []aggtypes.TokenPair{pair(a1)}
+		case "emptydenom":
+			gs.TokenPairs = []aggtypes.TokenPair{pair(a1, "")}
+		case "dupdenom":
+			gs.TokenPairs = []aggtypes.TokenPair{pair(a1, "acoin"), pair(a2, "acoin")}
+		case "dupsecond":
+			gs.TokenPairs = []aggtypes.TokenPair{pair(a1, "acoin", "bcoin"), pair(a2, "ccoin", "bcoin")}
+		case "duperc20":
+			gs.TokenPairs = []aggtypes.TokenPair{pair(a1, "acoin"), pair(a1, "bcoin")}
+		case "badaddr":
+			gs.TokenPairs = []aggtypes.TokenPair{pair("not-an-address", "acoin")}
+		case "noowner":
+			p := pair(a1, "acoin")
+			p.ContractOwner = aggtypes.OWNER_UNSPECIFIED
+			gs.TokenPairs = []aggtypes.TokenPair{p}
+		case "paramsonly":
+			gs.Params.EnableAggregate = false
+		}
+		raw = cdc.MustMarshalJSON(gs)
+	case "rvesting":
+		gs := rvestingtypes.DefaultGenesisState()
+		switch str(cs["from"]) {
+		case "funded", "poor":
+			gs.From = accts[0].Acc.String()
+		case "unknown":
+			gs.From = NewAcct("nobody").Acc.String()
+		case "invalid":
+			gs.From = "not-a-bech32-address"
+		}
+		big := sdk.NewInt(1)
+		if str(cs["from"]) == "poor" || str(cs["from"]) == "unknown" {
+			big, _ = sdk.NewIntFromString("1000000000000000000000000000000000000")
+		}
+		switch str(cs["reward"]) {
+		case "small":
+			gs.InitReward = sdk.Coins{sdk.NewCoin(sdk.DefaultBondDenom, big)}
+		case "big":
+			b, _ := sdk.NewIntFromString("1000000000000000000000000000000000000")
+			gs.InitReward = sdk.Coins{sdk.NewCoin(sdk.DefaultBondDenom, b)}
+		case "zero":
+			gs.InitReward = sdk.Coins{sdk.Coin{Denom: sdk.DefaultBondDenom, Amount: sdk.ZeroInt()}}
+		case "twodenoms":
+			gs.InitReward = sdk.Coins{sdk.NewCoin("aaa", big), sdk.NewCoin(sdk.DefaultBondDenom, big)}
+		case "unsorted":
+			gs.InitReward = sdk.Coins{sdk.NewCoin(sdk.DefaultBondDenom, big), sdk.NewCoin("aaa", big)}
+		}
+		raw = cdc.MustMarshalJSON(gs)
+	default:
+		gs := xibctypes.DefaultGenesisState()
+		tssCS, _ := w.L.tssState()
+		any, err := clienttypes.PackClientState(tssCS)
+		must(err)
+		rel := accts[1].Acc.String()
+		switch str(cs["f"]) {
+		case "tssclient":
+			gs.ClientGenesis.Clients = []clienttypes.IdentifiedClientState{{ChainName: "gen-tss", ClientState: any}}
+		case "clientnocons":
+			cst, _ := w.L.states("tm", 1, 2)
+			a2, err := clienttypes.PackClientState(cst)
+			must(err)
+			gs.ClientGenesis.Clients = []clienttypes.IdentifiedClientState{{ChainName: "gen-tm", ClientState: a2}}
+		case "consnoclient":
+			_, cons := w.L.states("tm", 1, 2)
+			ca, err := clienttypes.PackConsensusState(cons)
+			must(err)
+			gs.ClientGenesis.ClientsConsensus = []clienttypes.ClientConsensusStates{{ChainName: "gen-tm", ConsensusStates: []clienttypes.ConsensusStateWithHeight{{Height: clienttypes.NewHeight(0, 2), ConsensusState: ca}}}}
+		case "metanoclient":
+			gs.ClientGenesis.ClientsMetadata = []clienttypes.IdentifiedGenesisMetadata{{ChainName: "gen-tm", Metadata: []clienttypes.GenesisMetadata{{Key: []byte("k"), Value: []byte("v")}}}}
+		case "relayermismatch":
+			gs.ClientGenesis.Relayers = []clienttypes.IdentifiedRelayer{{Address: rel, Chains: []string{"one", "two"}, Addresses: []string{"a"}}}
+		case "emptynative":
+			gs.ClientGenesis.NativeChainName = ""
+		case "duprelayer":
+			gs.ClientGenesis.Relayers = []clienttypes.IdentifiedRelayer{{Address: rel, Chains: []string{"one"}, Addresses: []string{"a"}}, {Address: rel, Chains: []string{"two"}, Addresses: []string{"b"}}}
+		}
+		raw = cdc.MustMarshalJSON(gs)
+	}
+	// the module's own genesis validation
+	submit = func() (r string) {
+		defer func() {
+			if p := recover(); p != nil {
+				r, msg = "refused", fmt.Sprint("validation panic: ", p)
+			}
+		}()
+		var err error
+		switch sub {
+		case "aggregate":
+			err = (aggregatemodule.AppModuleBasic{}).ValidateGenesis(cdc, ref.TxConfig, raw)
+		case "rvesting":
+			err = (rvestingmodule.AppModuleBasic{}).ValidateGenesis(cdc, ref.TxConfig, raw)
+		default:
+			err = (xibcmodule.AppModuleBasic{}).ValidateGenesis(cdc, ref.TxConfig, raw)
+		}
+		if err != nil {
+			msg = err.Error()
+			return "refused"
+		}
+		return "ok"
+	}()
+	// InitChain of a fresh application with that module state
+	res = func() (r string) {
+		defer func() {
+			if p := recover(); p != nil {
+				r, msg = "panic", fmt.Sprint(p)
+			}
+		}()
+		NewChain(ChainOpts{ChainID: "teleport_9000-10", Accts: accts, NoChainName: true, NoCommit: true,
+			Mutate: func(a *app.Teleport, g simapp.GenesisState) {
+				g[map[string]string{"aggregate": "aggregate", "rvesting": "rvesting", "xibc": "xibc"}[sub]] = raw
+			}})
+		return "ok"
+	}()
+	return submit, res, msg
+}
+
 func driveHalt(t *testing.T, in, out string, seed int64) {
 	cases := ReadBehaviours(in)
 	tw := NewTraceWriter(out)
@@ -524,14 +665,24 @@ func driveHalt(t *testing.T, in, out string, seed int64) {
 			line["block"] = block
 		case "agg":
 			submit, res, msg, pre, post = w.runAgg(cs)
+		case "genesis":
+			submit, res, msg = w.runGenesis(cs)
 		}
 		line["submit"], line["res"], line["msg"] = submit, res, clip(msg)
 		line["dg"] = M{"pre": pre, "post": post}
 		sig := str(cs["fam"])
-		for _, k := range []string{"ty", "kind", "sub", "p", "f", "epoch", "shape", "amount", "list", "denom", "key", "val"} {
+		for _, k := range []string{"ty", "kind", "sub", "p", "f", "epoch", "shape", "amount", "list", "denom", "key", "val", "from", "reward"} {
 			if v, ok := cs[k]; ok {
 				sig += "/" + k + "=" + str(v)
 			}
+		}
+		if str(cs["fam"]) == "genesis" && res == "panic" {
+			// the kind of panic is part of the signature, so that a known finding names one kind only
+			kind := "other"
+			if strings.Contains(msg, "insufficient funds") {
+				kind = "insufficient-funds"
+			}
+			sig += "/panic=" + kind
 		}
 		line["sig"] = sig
 		tw.Emit(line)
